@@ -78,19 +78,29 @@ struct C16Redeliver : Monitor {
 		return o.n_ping_after <= 26;
 	}
 
-	std::deque<uint16_t> cli_ids;                   // ids of the client's last three queries
+	std::deque<uint16_t> cli_ids;                   // ids of the client's last 16 queries (what client.c accepts answers for)
 	void on_deliver(const Dgram &d, Sock *s) override
 	{
-		// an answer with tunnel data reaching the client under an id that is no longer among its last three queries is discarded by design
+		// an answer with tunnel data reaching the client under an id that is no longer among its last 16 queries is discarded by design
 		if (!s || !s->owner || s->owner == w->srv || d.src.port != 53 || is_raw(d.data) || d.data.size() < 12) return;
 		uint16_t id = (uint16_t)((d.data[0] << 8) | d.data[1]);
 		for (auto x : cli_ids) if (x == id) return;
 		DnsMsg m; Bytes pl;
 		if (dns_parse_strict(d.data, m).empty() && answer_payload(m, pl) && pl.size() > 2 && (pl[0] & 0x80)) w->probes["c16.client_discarded_nonrecent"]++;
 	}
+	int up_seq = -1, up_frag = -1, up_sends = 0;
 	void on_send(const Dgram &d, Sock *s) override
 	{
-		if (s && s->owner && s->owner != w->srv && d.dst.port == 53 && d.data.size() >= 2 && !is_raw(d.data)) { cli_ids.push_back((uint16_t)((d.data[0] << 8) | d.data[1])); if (cli_ids.size() > 3) cli_ids.pop_front(); }
+		if (s && s->owner && s->owner != w->srv && d.dst.port == 53 && !is_raw(d.data)) {
+			// the client gives an upstream packet up after sending the same chunk four times (client.c, outchunkresent); duplicate
+			// answers re-acking the previous chunk make it re-send at once, so the limit can be reached within milliseconds
+			DnsMsg m0; UpQuery u0;
+			if (dns_parse_strict(d.data, m0).empty() && !m0.qd.empty() && decode_upquery(m0.qd[0].name.dotted(), w->domain, u0) && u0.cmd == 'd') {
+				if (u0.up_seq == up_seq && u0.up_frag == up_frag) { if (++up_sends >= 4) w->probes["c16.client_resend_limit_reached"]++; }
+				else { up_seq = u0.up_seq; up_frag = u0.up_frag; up_sends = 1; }
+			}
+		}
+		if (s && s->owner && s->owner != w->srv && d.dst.port == 53 && d.data.size() >= 2 && !is_raw(d.data)) { cli_ids.push_back((uint16_t)((d.data[0] << 8) | d.data[1])); if (cli_ids.size() > 16) cli_ids.pop_front(); }
 		if (s && s->owner && s->owner != w->srv && d.dst.port == 53) {
 			// a client's query on its way out: remember ping/data queries by serial
 			Orig o; o.serial = d.serial;
@@ -170,6 +180,10 @@ struct C16Redeliver : Monitor {
 	void on_block(Task &t) override
 	{
 		if (&t != w->srv) return;
+		// duplicate answers make the client ping faster than its acks travel; each fresh ping makes the server send the current
+		// fragment again, and after six sends without an ack it gives the packet up (by design).  That loss is caused by fresh
+		// queries, not by processing a re-delivered one: runs in which the limit was reached only demand order downstream.
+		for (int u = 0, n = peek_nusers(); u < n; u++) { UserView v; if (peek_user(u, v) && v.active && v.outfragresent >= 5) w->probes["c16.client_discarded_nonrecent"]++, w->probes["c16.server_resend_limit_reached"]++; }
 		finish_step();
 		step_n = 0; step_tun = false; step_is_redeliv = false; have_before = false;
 	}
